@@ -10,6 +10,38 @@ from props.base import Context  # noqa: F401
 
 FOREIGN_META = re.compile(rb'^(#\.{1,3}meta: )format=json, length=', re.M)
 
+
+def foreign_rendering(data):
+    """the same document as another producer may write it: metadata headers without the
+    optional `format`, preambles not indented and without an `indent` option (the parser then
+    records `indent = None`)"""
+    out = bytearray()
+    pos = 0
+    while pos < len(data):
+        e = data.find(b'\n', pos)
+        if e < 0 or not data.startswith(b'#', pos):
+            return bytes(out) + data[pos:]
+        hdr = data[pos:e]
+        pos = e + 1
+        m = re.search(rb'(?:^|[ ,])length=([0-9]+)', hdr)
+        kind = re.match(rb'#\.{0,3}(preamble|meta|diff):', hdr)
+        if not (m and kind):
+            out += hdr + b'\n'
+            continue
+        n = int(m.group(1))
+        content = data[pos:pos + n]
+        pos += n
+        mi = re.search(rb'indent=([0-9]+), ', hdr)
+        if kind.group(1) == b'preamble' and mi and b'line_endings=unix' in hdr:
+            k = int(mi.group(1))
+            lines = content.split(b'\n')
+            content = b'\n'.join(l[k:] if l.startswith(b' ' * k) else l for l in lines)
+            hdr = hdr.replace(mi.group(0), b'').replace(b'length=%d' % n, b'length=%d' % len(content))
+        if kind.group(1) == b'meta':
+            hdr = hdr.replace(b'format=json, ', b'')
+        out += hdr + b'\n' + content
+    return bytes(out)
+
 PID = 'C18'
 TIE_MODULES = ['DiffxVerif.Tie.Dom']
 NEEDS = ['dom']
@@ -94,11 +126,15 @@ class World(object):
                 data = self.serialise(d)
                 if k == 'Q':
                     # the same file as another producer may write it: `format` is optional
-                    data = FOREIGN_META.sub(rb'\1length=', data)
+                    data = foreign_rendering(data)
                 new = self.reader.parse(io.BytesIO(data))
             except Exception:   # noqa  (tree not serialisable: the operation is skipped)
                 return False, bad
             self.trees.append(new)
+        elif k == 'R':
+            t, p = op[1:].split('.')
+            self.n += 1
+            section_at(self.trees[int(t)], p).preamble = 'note %d\nsecond line\n' % self.n
         elif k == 'O':
             d = self.trees[int(op[1:])]
             before = domadapt.canon_tree(domadapt.dump(d))
@@ -154,8 +190,11 @@ def gen_ops(rng, n):
                 op = 'C%d' % t
             elif r < 0.36 and d.changes:
                 op = 'F%d.%d' % (t, rng.randrange(len(d.changes)))
-            elif r < 0.56:
+            elif r < 0.50:
                 op = 'M%d.%s.%d' % (t, rng.choice(w.paths(t)), rng.randrange(6))
+            elif r < 0.56:
+                # a preamble text (immutable) on the tree or one of its changes
+                op = 'R%d.%s' % (t, rng.choice([p for p in w.paths(t) if 'f' not in p]))
             elif r < 0.68 and len(w.trees) < 6:
                 op = '%s%d' % (rng.choice('PPQ'), t)
             elif r < 0.78:
@@ -185,7 +224,14 @@ class Spec(object):
 
     def request(self, case):
         # parsing a foreign rendering (Q) allocates like parsing the library's own bytes (P)
-        return 'heap ' + ' '.join('P' + op[1:] if op[0] == 'Q' else op for op in case)
+        # … and assigning an immutable preamble text (R) allocates nothing, like an observer (O)
+        def tr(op):
+            if op[0] == 'Q':
+                return 'P' + op[1:]
+            if op[0] == 'R':
+                return 'O' + op[1:].split('.')[0]
+            return op
+        return 'heap ' + ' '.join(tr(op) for op in case)
 
     def run(self, case):
         w = World()
